@@ -86,7 +86,9 @@ def run_obligation(prop, o, log):
     ctx = Ctx(log)
     try:
         mod = importlib.import_module("mirsmt." + o["module"])
-        queries, encoded, validations = getattr(mod, o["func"])(ctx)
+        out = getattr(mod, o["func"])(ctx)
+        queries, encoded = out[0], out[1]
+        validations = out[2] if len(out) > 2 else []
     except Exception as e:  # Unsupported MIR, missing function, dump failure -> inconclusive
         res.update(status="UNSUPPORTED", error="%s: %s" % (type(e).__name__, str(e)[:400]))
         log("[M] %-44s UNSUPPORTED %s" % (o["name"], res["error"]))
@@ -104,6 +106,8 @@ def run_obligation(prop, o, log):
         nval += 1
     res["translator_validations"] = nval
     timeout_ms = int(o.get("timeout_s", 60) * 1000)
+    if queries and hasattr(queries[0], "run"):
+        return _run_path_queries(prop, o, res, queries, encoded, timeout_ms, log, t0)
     smtdir = os.path.join(BUILD, "smt", prop)
     os.makedirs(smtdir, exist_ok=True)
     sat_witness = 0
@@ -173,4 +177,113 @@ def run_obligation(prop, o, log):
     res["wall_s"] = round(time.time() - t0, 2)
     res["solver_s"] = round(res["solver_s"], 3)
     log("[M] %-44s %-9s queries=%d validations=%d solver=%.2fs" % (o["name"], res["status"], res["queries"], nval, res["solver_s"]))
+    return res
+
+
+# ------------------------------------------------------------------------------------------------
+# engine P: path queries + native scenario replays
+
+_SCEN = None
+
+
+def scenarios_bin(log):
+    global _SCEN
+    if _SCEN is None:
+        import shutil
+        cdir = os.path.join(HERE, "replay", "scenarios")
+        shutil.copy("/repo/Cargo.lock", os.path.join(cdir, "Cargo.lock"))
+        env = dict(os.environ)
+        env["CARGO_NET_OFFLINE"] = "true"
+        p = subprocess.run(["cargo", "build", "--offline", "--target-dir", os.path.join(BUILD, "scenarios")], cwd=cdir,
+                           stdout=subprocess.PIPE, stderr=subprocess.STDOUT, text=True, env=env)
+        if p.returncode != 0:
+            raise RuntimeError("scenarios build failed: " + p.stdout[-1500:])
+        _SCEN = os.path.join(BUILD, "scenarios", "debug", "scenarios")
+    return _SCEN
+
+
+def run_scenario(name, log, outdir):
+    """Replay an engine-P counterexample as a concrete history against the real crate.
+    Returns (violated: bool|None, transcript path). None = scenario could not run."""
+    os.makedirs(outdir, exist_ok=True)
+    b = scenarios_bin(log)
+    d = os.path.join(BUILD, "scen", name)
+    tr = os.path.join(outdir, name + ".txt")
+    if name == "c04_recover_fsync":
+        subprocess.run([b, "c04_crash_post_meta", d], stdout=subprocess.DEVNULL, stderr=subprocess.DEVNULL)
+        st = os.path.join(outdir, name + ".strace")
+        p = subprocess.run(["strace", "-f", "-y", "-e", "trace=pwrite64,fsync,fdatasync,ftruncate", "-o", st, b, "c04_reopen", d],
+                           stdout=subprocess.PIPE, stderr=subprocess.STDOUT, text=True)
+        if not os.path.exists(st):
+            return None, tr
+        ev = []
+        for ln in open(st):
+            m = re.search(r"(pwrite64|fsync|fdatasync|ftruncate)\(\d+<([^>]*)>", ln)
+            if m:
+                ev.append((m.group(1), os.path.basename(m.group(2))))
+        writes = [i for i, (c, f) in enumerate(ev) if c == "pwrite64" and f == "ht"]
+        truncs = [i for i, (c, f) in enumerate(ev) if c == "ftruncate" and f == "wal"]
+        violated = None
+        if writes and truncs:
+            last_w = writes[-1]
+            t = [i for i in truncs if i > last_w]
+            if t:
+                violated = not any(c in ("fsync", "fdatasync") and f == "ht" for c, f in ev[last_w:t[0]])
+        with open(tr, "w") as f:
+            f.write("scenario %s: crash after the meta switch-over, then reopen under strace\n" % name)
+            f.write("syscall trace of recovery (file, call):\n" + "\n".join("%s %s" % e for e in ev if e[0] != "pwrite64" or True)[-4000:])
+            f.write("\nverdict: %s\n" % ("VIOLATED: no fsync(ht) between the last pwrite(ht) and ftruncate(wal)" if violated else "holds / not observed"))
+        return violated, tr
+    p = subprocess.run([b, name, d], stdout=subprocess.PIPE, stderr=subprocess.STDOUT, text=True)
+    open(tr, "w").write("$ %s %s %s\n%s" % (b, name, d, p.stdout[-4000:]))
+    if "VIOLATED " + name in p.stdout:
+        return True, tr
+    if "HOLDS " + name in p.stdout:
+        return False, tr
+    return None, tr
+
+
+def _run_path_queries(prop, o, res, queries, encoded, timeout_ms, log, t0):
+    res["functions"] = sorted(encoded)
+    sat_witness = 0
+    for q in queries:
+        t1 = time.time()
+        r, path, _s = q.run(timeout_ms)
+        res["queries"] += 1
+        res["solver_s"] += time.time() - t1
+        if q.expect == "sat":
+            if r == "sat":
+                sat_witness += 1
+            else:
+                res.update(status="VACUOUS", error="vacuity witness `%s` is %s" % (q.name, r))
+            continue
+        if r == "unsat":
+            continue
+        if r == "unknown":
+            res.update(status="TIMEOUT", error="%s: solver answered unknown" % q.name)
+            continue
+        rec = {"description": q.key or q.name, "function": (q.key or q.name).split(":")[0], "file": "", "line": "",
+               "path": path[-12:]}
+        for ln in path[-6:]:
+            log("      " + ln[:200])
+        if q.scenario:
+            violated, tr = run_scenario(q.scenario, log, os.path.join(BUILD, "replay", prop))
+            if violated:
+                res["replayed"] = True
+                res["replay_path"] = tr
+            else:
+                res["replayed"] = False
+                res["replay_path"] = tr + " (scenario does not reproduce: encoding suspected)"
+        else:
+            res["replayed"] = False
+            res["replay_path"] = "no native scenario for this obligation"
+        res["violations"].append(rec)
+        res["status"] = "FAILED"
+    if sat_witness:
+        res["witness_sat"] = True
+    elif res["status"] == "OK":
+        res.update(status="VACUOUS", error="no satisfiable vacuity witness")
+    res["wall_s"] = round(time.time() - t0, 2)
+    res["solver_s"] = round(res["solver_s"], 3)
+    log("[P] %-44s %-9s queries=%d solver=%.2fs" % (o["name"], res["status"], res["queries"], res["solver_s"]))
     return res
